@@ -1833,6 +1833,25 @@ class TmpStructField(Base):
       s.p @= zext(t.x, 8)
 
 
+@design(lambda st, a, b, sel, en, reset: (None, {"o": 0x35 if en else 0xC2, "p": 0x35}))
+class ConstStructWhole(Base):
+  """bitstruct-valued member constants assigned whole to struct-typed ports"""
+  def construct(s):
+    s.ports()
+    s.o = OutPort(Pst)
+    s.p = OutPort(Pst)
+    s.KP = Pst(3, 5)
+    s.KQ = Pst(12, 2)
+
+    @update
+    def up_csw():
+      if s.en:
+        s.o @= s.KP
+      else:
+        s.o @= s.KQ
+      s.p @= s.KP
+
+
 def sequences():
   """input sequences (lists of dicts): one long deterministic walk covering every (sel, en) with varied a, b; reset pulses inside"""
   A = (0, 1, 0x5A, 0xFF, 0x80, 0x0F, 0x37)
